@@ -3647,6 +3647,9 @@ class DecVar(Vars):
             events = ([events] if isinstance(events, (str, Real))
                       else list(events))
 
+        if len(events) == 0:
+            raise ValueError('An event must contain at least one scenario.')
+
         # check every scenario before any is moved: a rejected call leaves
         # the events as they were
         rest = list(self.event_adapt[0]) if self.event_rest else []
